@@ -63,6 +63,11 @@ def _setup(scratch):
     _Env.mock = mock
     _Env.scratch = scratch
     _Env.ready = True
+    # the option registry is completed by the first BertE() of a process
+    # (gwf.setup); do it now so that what a generator reads from the live
+    # registry does not depend on whether a session was created before
+    import bert_e.workflow.gitwaterflow as gwf
+    gwf.setup({})
 
 
 def live_registry():
